@@ -39,6 +39,7 @@ type prodCfg struct {
 	Sync         bool    `json:"sync"`
 	MaxReqSize   int     `json:"maxReqSize"`
 	InitPidFault string  `json:"initPidFault"`
+	GrowIc       int     `json:"growIc"`  // > 0: the first interceptor appends this many bytes to the value
 	PanicIc      int     `json:"panicIc"` // 1-based index of an interceptor that panics after logging (0 = none)
 }
 
@@ -127,6 +128,7 @@ type vInterceptor struct {
 	c      *simCluster
 	hdr    bool
 	panics bool
+	grow   int
 }
 
 func (i *vInterceptor) OnSend(m *ProducerMessage) {
@@ -135,6 +137,11 @@ func (i *vInterceptor) OnSend(m *ProducerMessage) {
 	if i.hdr && id > 0 {
 		h := RecordHeader{Key: []byte(fmt.Sprintf("ic%d", i.chain)), Value: []byte("x")}
 		m.Headers = append(m.Headers, h)
+	}
+	if i.grow > 0 && id > 0 {
+		if b, err := m.Value.Encode(); err == nil {
+			m.Value = StringEncoder(string(b) + strings.Repeat("g", i.grow))
+		}
 	}
 	if i.panics {
 		panic("verif: interceptor panic")
@@ -375,7 +382,7 @@ func runProducerScenario(t testing.TB, rec *vRec, sc *prodScenario) {
 		config.Producer.Partitioner = func(topic string) Partitioner { return &vPartitioner{NewRandomPartitioner(topic), rec, cfgv.Leaders} }
 	}
 	for i := 0; i < cfgv.Interceptors; i++ {
-		config.Producer.Interceptors = append(config.Producer.Interceptors, &vInterceptor{rec: rec, chain: i + 1, c: c, hdr: v.IsAtLeast(V0_11_0_0), panics: cfgv.PanicIc == i+1})
+		config.Producer.Interceptors = append(config.Producer.Interceptors, &vInterceptor{rec: rec, chain: i + 1, c: c, hdr: v.IsAtLeast(V0_11_0_0), panics: cfgv.PanicIc == i+1, grow: map[bool]int{true: cfgv.GrowIc}[i == 0]})
 	}
 	if cfgv.MaxReqSize > 0 {
 		old := MaxRequestSize
@@ -512,6 +519,9 @@ func runProducerScenario(t testing.TB, rec *vRec, sc *prodScenario) {
 			}
 			m := &ProducerMessage{Topic: simTopic, Partition: int32(st.Part), Value: StringEncoder(val), Metadata: st.ID}
 			sub := &simSubmitted{value: []byte(val), tsMs: -1}
+			if cfgv.GrowIc > 0 && cfgv.Interceptors > 0 {
+				sub.value = []byte(val + strings.Repeat("g", cfgv.GrowIc))
+			}
 			if st.BadEnc {
 				m.Value = vBadEncoder{}
 			}
